@@ -3,6 +3,7 @@ import PGV.Props.C18
 #print axioms PGV.Props.C18.C18_struct_dispatch
 #print axioms PGV.Props.C18.C18_flat_dispatch
 #print axioms PGV.Props.C18.C18_size_verdict_carrier_indep
+#print axioms PGV.Props.C18.C18_verdict_carrier_indep
 #print axioms PGV.Props.C18.hexNibble_hexUpper
 #print axioms PGV.Props.C18.byte_cases
 #print axioms PGV.Props.C18.queryUnescape_plain
